@@ -43,7 +43,7 @@ def pat_of(item):
 def judged(rule: dict, path: str) -> bool:
     if any(re.search(pat_of(p), path, re.IGNORECASE) for p in rule.get("deny", [])):
         return True
-    if "allow" in rule and not any(re.search(p, path, re.IGNORECASE) for p in rule["allow"]):
+    if "allow" in rule and not any(re.search(pat_of(p), path, re.IGNORECASE) for p in rule["allow"]):
         return True
     return False
 
@@ -72,7 +72,8 @@ def gen_rule(rng):
         return {}  # an empty rule still covers its directory: nothing is restricted there and global rules do not apply
     r = {}
     if rng.random() < 0.7:
-        r["allow"] = rng.sample(PATTERNS, rng.randint(1, 3))
+        # (an entry may be written as a mapping with a `pattern` key, like the entries of a deny list - the repository's own e2e tests do)
+        r["allow"] = [({"pattern": p} if rng.random() < 0.25 else p) for p in rng.sample(PATTERNS, rng.randint(1, 3))]
     if rng.random() < 0.6 or not r:
         r["deny"] = [({"pattern": p, "reason": "denied %d" % i} if rng.random() < 0.5 else p) for i, p in enumerate(rng.sample(PATTERNS[:-1], rng.randint(1, 2)))]
     return r
@@ -93,7 +94,7 @@ def gen_rules(rng):
         if rng.random() < 0.6:
             gp["deny"] = [{"pattern": p, "message": "gp deny"} if rng.random() < 0.5 else p for p in rng.sample(PATTERNS[:-1], 1)]
         if rng.random() < 0.6 or not gp:
-            gp["allow"] = rng.sample(PATTERNS, rng.randint(1, 3))
+            gp["allow"] = [({"pattern": p} if rng.random() < 0.25 else p) for p in rng.sample(PATTERNS, rng.randint(1, 3))]
         rules["global_patterns"] = gp
     return rules
 
